@@ -3,12 +3,19 @@
 use std::{
     collections::{HashMap, HashSet},
     panic::AssertUnwindSafe,
-    sync::{
-        Arc, Mutex,
-        atomic::{AtomicBool, AtomicUsize, Ordering},
-    },
+};
+#[cfg(not(fontc_verif))]
+use std::sync::{
+    Arc, Mutex,
+    atomic::{AtomicBool, AtomicUsize, Ordering},
 };
 
+// under simulation the pool, the channel and the sync primitives belong to the simulator
+#[cfg(fontc_verif)]
+use crate::verif::{
+    Arc, AtomicBool, AtomicUsize, Mutex, Ordering, Receiver, Scope, TryRecvError,
+};
+#[cfg(not(fontc_verif))]
 use crossbeam_channel::{Receiver, TryRecvError};
 use fontbe::{
     avar::create_avar_work,
@@ -49,9 +56,9 @@ use fontir::{
 };
 use log::{debug, trace, warn};
 
-#[cfg(not(feature = "rayon"))]
+#[cfg(all(not(feature = "rayon"), not(fontc_verif)))]
 use crate::norayon::SequentialScope as Scope;
-#[cfg(feature = "rayon")]
+#[cfg(all(feature = "rayon", not(fontc_verif)))]
 use rayon::Scope;
 
 use crate::{
@@ -377,6 +384,8 @@ impl Workload {
         timing: JobTime,
     ) -> Result<(), Error> {
         log::debug!("{success:?} successful");
+        #[cfg(fontc_verif)]
+        fontdrasil::verif::event("handle-success", &success, None);
 
         self.timer.add(timing);
 
@@ -579,8 +588,11 @@ impl Workload {
 
     pub fn exec(mut self, fe_root: &FeContext, be_root: &BeContext) -> Result<JobTimer, Error> {
         // Async work will send us it's ID on completion
+        #[cfg(not(fontc_verif))]
         let (send, recv) =
             crossbeam_channel::unbounded::<(AnyWorkId, Result<(), Error>, JobTime)>();
+        #[cfg(fontc_verif)]
+        let (send, recv) = crate::verif::unbounded::<(AnyWorkId, Result<(), Error>, JobTime)>();
 
         // a flag we set if we panic
         let abort_queued_jobs = Arc::new(AtomicBool::new(false));
@@ -639,6 +651,8 @@ impl Workload {
                             let job = self.jobs_pending.get_mut(id).unwrap();
                             log::trace!("Start {id:?}");
                             job.running = true;
+                            #[cfg(fontc_verif)]
+                            fontdrasil::verif::event("launch", id, Some(&job.read_access));
 
                             let mut work =
                                 AnyWork::AlsoComplete(id.clone(), job.read_access.clone());
@@ -678,9 +692,13 @@ impl Workload {
                                 panic!("Spawned more jobs than items available to run");
                             };
                             let id = work.id();
+                            #[cfg(fontc_verif)]
+                            fontdrasil::verif::event("popped", &id, None);
                             let timing = timing.run();
                             if abort.load(Ordering::Relaxed) {
                                 log::trace!("Aborting {id:?}");
+                                #[cfg(fontc_verif)]
+                                fontdrasil::verif::event("aborted", &id, None);
                                 return;
                             }
                             // # Unwind Safety
@@ -699,6 +717,13 @@ impl Workload {
                             // <https://doc.rust-lang.org/nomicon/exception-safety.html#exception-safety>
                             // <https://doc.rust-lang.org/std/panic/trait.UnwindSafe.html>
                             let result = match std::panic::catch_unwind(AssertUnwindSafe(|| {
+                                #[cfg(fontc_verif)]
+                                if let Some(msg) = fontdrasil::verif::pre_exec(&id) {
+                                    return Err(Error::FileIo {
+                                        path: "<injected>".into(),
+                                        source: std::io::Error::other(msg),
+                                    });
+                                }
                                 work.exec(work_context)
                             })) {
                                 Ok(result) => result,
@@ -712,12 +737,16 @@ impl Workload {
                             // before our success result has passed through the channel
                             // At peak times, such as completion of tons of glyphs, the channel seems
                             // to have tens of ms of delay.
+                            #[cfg(fontc_verif)]
+                            fontdrasil::verif::event("exec-done", &id, Some(&result.is_ok()));
                             if result.is_ok() {
                                 for counter in counters {
                                     counter.fetch_sub(1, Ordering::AcqRel);
                                 }
                             }
                             let timing = timing.complete();
+                            #[cfg(fontc_verif)]
+                            fontdrasil::verif::event("pre-send", &id, None);
 
                             if let Err(e) = send.send((id.clone(), result, timing)) {
                                 log::error!("Unable to write {id:?} to completion channel: {e}");
@@ -752,7 +781,7 @@ impl Workload {
             Ok::<(), Error>(())
         };
 
-        #[cfg(feature = "rayon")]
+        #[cfg(all(feature = "rayon", not(fontc_verif)))]
         {
             // use an explicit threadpool to avoid possible congestion if another
             // library we use is using the global threadpool
@@ -761,11 +790,13 @@ impl Workload {
                 .expect("couldn't build threadpool");
             tp.in_place_scope(runner)?;
         }
-        #[cfg(not(feature = "rayon"))]
+        #[cfg(all(not(feature = "rayon"), not(fontc_verif)))]
         {
             let scope = Scope;
             runner(&scope)?;
         }
+        #[cfg(fontc_verif)]
+        crate::verif::in_place_scope(runner)?;
 
         // If ^ exited due to error the scope awaited any live tasks; capture their results
         self.read_completions(&mut Vec::new(), &recv, RecvType::NonBlocking)?;
